@@ -134,7 +134,14 @@ PlanesMOK(r) == \E c \in {[F |-> St(r.t, r.st, r.o), M |-> Mat(r.t, r.cam, 4, 4)
     LET t == r.t  F == c.F  M == c.M
         img(x) == [j \in 1..4 |-> Value(VecMat(x, M)[j])]                  \* exact image of a homogeneous point (M affine: weight unchanged)
         det == Det(Lin(M, 3))
-        k0 == WinAmp(F)
+        \* planes(p, M) takes each plane through three transformed corners: the direction of a normal is lost to cancellation in
+        \* proportion to (size of the coordinates) / (shortest edge of the transformed near rectangle)
+        na == img(FC!Corner(F, -1, -1, -1))  nb == img(FC!Corner(F, -1, 1, -1))  nd == img(FC!Corner(F, 1, -1, -1))
+        e1 == Norm2(<<Sb(nb[1], na[1]), Sb(nb[2], na[2]), Sb(nb[3], na[3])>>)
+        e2 == Norm2(<<Sb(nd[1], na[1]), Sb(nd[2], na[2]), Sb(nd[3], na[3])>>)
+        big2 == D!DSq(Add(One, D!DMax(MaxAbsRow(na), D!DMax(MaxAbsRow(nb), MaxAbsRow(nd)))))
+        kM == (AmpK(D!DMin(e1, e2), big2, 60) + 1) \div 2
+        k0 == IF WinAmp(F) > kM THEN WinAmp(F) ELSE kM
         tol == D!DScale(E(t), k0 + 4)
         scM == Add(One, MaxAbs(M))
     IN  (FC!WellFormed(F) /\ D!DSign(det) > 0) =>
